@@ -310,10 +310,29 @@ pub fn run(ctx: &Ctx) -> Report {
     });
     st = st.merge(st4);
 
+    // (5) the names AWS itself uses: every region code and pseudo-region of the SDKs' endpoint tables x every service
+    //     signing name — opaque strings to the derivation
+    {
+        let regions = crate::checks::wellknown::regions();
+        let services = crate::checks::wellknown::services();
+        let (nr, ns) = (regions.len() as u64, services.len() as u64);
+        let n5 = nr * ns * 2;
+        let base5 = n1 + n2 + n3 + n4 * 4 + 1_000_000;
+        let st5 = par_sweep(n5, |i, st| {
+            let s = if i % 2 == 0 { secret(40, 1) } else { "AWS4".to_string() };
+            let r = regions[((i / 2) % nr) as usize];
+            let v = services[((i / 2) / nr) as usize];
+            check_chain(base5 + i, &s, (2015, 8, 30), r, v, st);
+            st.nontrivial(&(i % 2, r, v, "well-known"));
+            st.outcome("chain:well-known-names");
+        });
+        st = st.merge(st5);
+    }
+
     Report {
         stats: st,
         rule: format!(
-            "(1) capacities {{0,1,3,4,5,44,45,64,128}} x every secret length 0..={} and the lengths 65480..65600 and 1048560..1048620 x 9 fills (ASCII, mixed, multi-byte UTF-8, trailing NUL, trailing newline, leading/trailing blank and tab, trailing no-break space, beginning with the literals 'AWS4' / 'aws4_request'): accepted iff capacity >= 4 and length <= capacity-4, never a panic; (2) every accepted length 0..=40 x 9 fills x {} special dates (years 1/999/1000/9999, every 29 Feb 1896-2104) x 36 (region, service) pairs over {{empty, us-east-1, non-ASCII, 1000 bytes, with '/', with NUL}}: read-back of the secret, the four chain keys and all six shortcut derivations compared with the reference HMAC chain; (3) every calendar date {}-01-01..{}-12-31; (4) every sequence of 1..{} derivations on one thread over 12 secrets that are prefixes / NUL-extensions / case variants of one another x 2 dates, each judged alone. states = distinct reference signing keys; non-trivial = distinct inputs",
+            "(1) capacities {{0,1,3,4,5,44,45,64,128}} x every secret length 0..={} and the lengths 65480..65600 and 1048560..1048620 x 9 fills (ASCII, mixed, multi-byte UTF-8, trailing NUL, trailing newline, leading/trailing blank and tab, trailing no-break space, beginning with the literals 'AWS4' / 'aws4_request'): accepted iff capacity >= 4 and length <= capacity-4, never a panic; (2) every accepted length 0..=40 x 9 fills x {} special dates (years 1/999/1000/9999, every 29 Feb 1896-2104) x 36 (region, service) pairs over {{empty, us-east-1, non-ASCII, 1000 bytes, with '/', with NUL}}: read-back of the secret, the four chain keys and all six shortcut derivations compared with the reference HMAC chain; (3) every calendar date {}-01-01..{}-12-31; (4) every sequence of 1..{} derivations on one thread over 12 secrets that are prefixes / NUL-extensions / case variants of one another x 2 dates, each judged alone; (5) every AWS region code and pseudo-region (aws-global, aws-cn-global, fips-*, s3-external-1, ...: 62 names) x every service signing name (70) x 2 secrets. states = distinct reference signing keys; non-trivial = distinct inputs",
             max_len, nd, y0, y1, depth
         ),
         bounds: json!({"max_secret_len": max_len, "dates_from_year": y0, "dates_to_year": y1}),
